@@ -39,7 +39,7 @@ def api_arguments_not_mutated(ctx, clause):
             n += 1
             B = g.back([node], labels=("copy",))
             hit = [params[x] for x in B if x in params]
-            key = "R-PURE|api-argument|%s|%s" % (f.short, norm(stmt)[:60])
+            key = "R-PURE|api-argument|%s|%s" % (f.short, f.key(stmt)[:60])
             if hit and _receivers_own_field(ctx, f, obj, params):
                 obs.append(Ob(clause, "R-PURE", key, f.loc(stmt), True,
                               "field-based aliasing merges objects, but every receiver of %s is constructed with a value that "
